@@ -104,7 +104,7 @@ Proof. vm_compute. reflexivity. Qed.
 (* recorded finding C03-map-numeric-keys on the faithful model (key order = the model of impl Ord) *)
 From EDP Require Import Order.Cmp.
 Theorem C03_refuted_numeric_keys :
-  let cfg := {| d_arms := owned_arms; d_cache := []; d_inflate := fun _ => None; d_float_text := fun _ => None;
+  let cfg := {| d_arms := owned_arms; d_cache := []; d_refs := []; d_inflate := fun _ => None; d_float_text := fun _ => None;
                 d_kcmp := cmp_owned; d_kinsert := map_insert; d_extra_fuel := 0 |} in
   (* #{1 => 10, 1.0 => 20} *)
   decode cfg [131; 116; 0; 0; 0; 2; 97; 1; 97; 10; 70; 63; 240; 0; 0; 0; 0; 0; 0; 97; 20] = DOk (TMap [(TInt 1, TInt 20)]).
